@@ -31,6 +31,18 @@ def cases(tier, seed):
     out = []
     for scn in scen.directed(tier):
         out.append(dict(id=scn['id'], kind='scn', scn=scn, seed=seed))
+    # a peer that announces a segment MRU of zero (nothing but empty segments would be legal): whatever the endpoint does about
+    # it, what it writes stays a legal sequence
+    for idx, (mru_a, mru_b, seg) in enumerate(((None, 0, 100), (0, None, 100), (0, 0, 7), (None, 0, 1))):
+        cfg_a = dict(segment_size_tx_initial=seg)
+        cfg_b = dict(segment_size_tx_initial=seg)
+        if mru_a is not None:
+            cfg_a['segment_size_mru'] = mru_a
+        if mru_b is not None:
+            cfg_b['segment_size_mru'] = mru_b
+        scn = dict(id='mru0-%d' % idx, seed=idx, policy=['fair', 'rr', 'eager', 'burst'][idx], capacity=None, cfg_a=cfg_a, cfg_b=cfg_b,
+                   sends=[dict(side='A', length=50, at=-1), dict(side='A', length=0, at=2), dict(side='A', length=5, at=4), dict(side='B', length=7, at=3)])
+        out.append(dict(id=scn['id'], kind='scn', scn=scn, seed=seed))
     nrand = 3000 if tier == 'thorough' else 240
     block = 20
     for idx in range(0, nrand, block):
